@@ -309,7 +309,7 @@ def work(sh):
         @settings(max_examples=sh["examples"], deadline=None, database=None, suppress_health_check=list(HealthCheck),
                   phases=[Phase.generate], report_multiple_bugs=False)
         @given(progen.programs(max_stmts=6, allow=("ew", "ew", "shape", "red", "linalg"), input_kinds=(progen.F,), n_outputs=(1, 1)),
-               st.lists(st.sampled_from(ALL_T[1:]), min_size=sh["per"], max_size=sh["per"], unique=True))
+               st.lists(st.sampled_from(ALL_T[1:]), min_size=min(sh["per"], len(ALL_T) - 1), max_size=min(sh["per"], len(ALL_T) - 1), unique=True))
         def t(prog, tn):
             vs = check_program(prog, ["jit", "grad", "grad_last"] + [x for x in tn if x not in ("grad", "grad_last")], acc)
             if not vs and len(acc.samples) < 1:
